@@ -90,6 +90,8 @@ enum Resp {
     Chunk(Vec<u8>, bool),
     Error,
     Cut,
+    /// the peer keeps the connection open and never answers (only with a caller that gives up: `cancel`)
+    Hang,
 }
 #[derive(Clone, Copy, PartialEq, Debug)]
 enum Open {
@@ -159,6 +161,9 @@ struct Script {
     /// presentation of the peer's answers that the model does not see (query bytes of the last flag, error
     /// codes and bodies, stream ids, format codes, resource names): must not matter
     style: u64,
+    /// `WebSocketLimits::max_incoming_frame/message_size` of the pulling WebSocket client: a chunk response
+    /// larger than this is refused by the client's reader, which ends the connection
+    wl: Option<usize>,
 }
 
 /// Deterministic filler for large bodies (`g<seed>.<len>` on the line protocol; twin of `genBytes`).
@@ -187,12 +192,14 @@ fn resp_word(r: &Resp) -> String {
         Resp::Chunk(b, l) => format!("c:{}:{}", body_word(b), *l as u8),
         Resp::Error => "e".into(),
         Resp::Cut => "x".into(),
+        Resp::Hang => "h".into(),
     }
 }
 fn parse_resp(w: &str) -> Option<Resp> {
     match w {
         "e" => Some(Resp::Error),
         "x" => Some(Resp::Cut),
+        "h" => Some(Resp::Hang),
         _ => {
             let p: Vec<&str> = w.split(':').collect();
             if p.len() == 3 && p[0] == "c" {
@@ -211,7 +218,7 @@ impl Script {
             self.puller.name(),
             if self.ws { "@ws" } else { "" },
             if self.via_ps { "@ps" } else { "" },
-            if self.style != 0 { format!("@s{}", self.style) } else { String::new() },
+            format!("{}{}", if self.style != 0 { format!("@s{}", self.style) } else { String::new() }, self.wl.map(|n| format!("@wl{n}")).unwrap_or_default()),
             if self.zstd { "zstd" } else { "none" },
             if self.beve { "beve" } else { "raw" },
             match self.open {
@@ -274,6 +281,7 @@ impl Script {
                 ws: w[0].split('@').any(|x| x == "ws"),
                 via_ps: w[0].split('@').any(|x| x == "ps"),
                 style: w[0].split('@').find_map(|x| x.strip_prefix('s').and_then(|n| n.parse().ok())).unwrap_or(0),
+                wl: w[0].split('@').find_map(|x| x.strip_prefix("wl").and_then(|n| n.parse().ok())),
                 verify_kind: match w[4] { "panic" => 1, "panics" => 2, "panicv" => 3, "slow" => 4, _ => 0 },
                 dfault: w[9].strip_prefix('d').and_then(|n| n.parse().ok()).map(|n| (n, false)).or(w[9].strip_prefix('p').and_then(|n| n.parse().ok()).map(|n| (n, true))),
                 zstd: w[1] == "zstd",
@@ -312,6 +320,9 @@ impl Script {
         let mut acc = vec![];
         for r in &self.wire {
             match r {
+                // a response frame (48-byte header, 1-byte query, body) over the client's inbound limit
+                // never reaches the puller: the connection ends there
+                Resp::Chunk(b, _) if self.wl.map(|n| 49 + b.len() > n).unwrap_or(false) => return None,
                 Resp::Chunk(b, last) => {
                     acc.extend_from_slice(b);
                     if *last {
@@ -414,7 +425,8 @@ fn read_frame(s: &mut TcpStream) -> Option<RawFrame> {
 type Reg = Arc<Mutex<HashMap<String, Arc<Sess>>>>;
 
 enum Act {
-    Reply(Vec<u8>),
+    /// the frame and the style of the session it belongs to (how to put it on the wire)
+    Reply(Vec<u8>, u64),
     Silent,
     Close,
 }
@@ -422,7 +434,49 @@ enum Act {
 fn frame(id: u64, ec: u32, qfmt: u16, q: &[u8], bfmt: u16, b: &[u8]) -> Act {
     let mut f = RawFrame::request(id, false, qfmt, q, bfmt, b);
     f.h.ec = ec;
-    Act::Reply(f.to_vec())
+    Act::Reply(f.to_vec(), 0)
+}
+
+fn styled(a: Act, st: u64) -> Act {
+    match a {
+        Act::Reply(b, _) => Act::Reply(b, st),
+        a => a,
+    }
+}
+
+/// Put one frame on a TCP connection the way the style says (bits 18-20): whole; byte by byte (small
+/// frames); 2-3 pieces cut inside the header / at 48 / inside the query / inside the body; the same with a
+/// stall between the pieces; segment-sized pieces.  WHAT arrives is the same; only how.
+static FRAME_NO: AtomicU64 = AtomicU64::new(0);
+
+fn write_fragmented(s: &mut TcpStream, b: &[u8], st: u64) -> bool {
+    let mode = (st >> 18) & 7;
+    let mut rng = Rng::new(st ^ (b.len() as u64).wrapping_mul(0x9E37_79B9) ^ FRAME_NO.fetch_add(1, Ordering::Relaxed));
+    let mode = if mode == 1 && !THOROUGH.load(Ordering::Relaxed) && rng.below(16) != 0 { 2 } else { mode };
+    let mut cuts: Vec<usize> = match mode {
+        1 if b.len() <= (if THOROUGH.load(Ordering::Relaxed) { 20_000 } else { 400 }) => (1..b.len()).collect(),
+        1 | 4 => (1..b.len()).filter(|i| i % 1460 == 0).collect(),
+        2 | 3 | 5 => {
+            let cands = [1 + rng.below(47) as usize, 48, 48 + 1, 49 + rng.below(b.len().max(50) as u64 - 49) as usize, b.len().saturating_sub(1)];
+            let k = 1 + rng.below(2) as usize;
+            (0..k).map(|_| *rng.pick(&cands)).filter(|c| *c > 0 && *c < b.len()).collect()
+        }
+        _ => vec![],
+    };
+    cuts.sort();
+    cuts.dedup();
+    let mut at = 0;
+    for c in cuts.into_iter().chain(std::iter::once(b.len())) {
+        if s.write_all(&b[at..c]).is_err() || s.flush().is_err() {
+            return false;
+        }
+        at = c;
+        // (per frame with a small probability: streams of thousands of frames must stay cheap)
+        if at < b.len() && ((mode == 3 && rng.below(12) == 0) || (mode == 5 && rng.below(48) == 0)) {
+            std::thread::sleep(Duration::from_millis(if mode == 5 { 60 } else { 2 }));
+        }
+    }
+    true
 }
 
 /// What the scripted peer does with one request (shared by the TCP and the WebSocket front end).
@@ -461,7 +515,7 @@ fn answer(f: &RawFrame, reg: &Reg, ids: &AtomicU64, streams: &mut HashMap<u64, A
                             r.compression = 7;
                         }
                     }
-                    frame(f.h.id, 0, 0, b"", 1, &beve::to_vec(&r).unwrap())
+                    styled(frame(f.h.id, 0, 0, b"", 1, &beve::to_vec(&r).unwrap()), st)
                 }
             }
         }
@@ -480,14 +534,15 @@ fn answer(f: &RawFrame, reg: &Reg, ids: &AtomicU64, streams: &mut HashMap<u64, A
                 Resp::Chunk(b, last) => {
                     // `last` is "the first query byte is 1": every other query is a non-final chunk
                     let q: &[u8] = if last { [&[1u8][..], &[1, 0], &[1, 9, 9]][((st >> 3) & 3) as usize % 3] } else { [&[0u8][..], &[], &[2], &[0, 1], &[255]][(st & 7) as usize % 5] };
-                    frame(f.h.id, 0, ((st >> 13) & 1) as u16, q, ((st >> 14) & 1) as u16, &b)
+                    styled(frame(f.h.id, 0, ((st >> 13) & 1) as u16, q, ((st >> 14) & 1) as u16, &b), st)
                 }
                 Resp::Error => {
                     let ec = [9u32, 1, 5, 4096, 77, 3][((st >> 5) & 7) as usize % 6];
                     let body: &[u8] = if (st >> 8) & 1 == 1 { &[0xff, 0xfe, 0x00, 0x80] } else { b"producer failed" };
-                    frame(f.h.id, ec, 0, b"", 3, body)
+                    styled(frame(f.h.id, ec, 0, b"", 3, body), st)
                 }
                 Resp::Cut => Act::Close,
+                Resp::Hang => Act::Silent,
             }
         }
         _ => frame(f.h.id, 6, 0, b"", 3, b"no route"),
@@ -499,8 +554,8 @@ fn fake_conn(mut s: TcpStream, reg: Reg, ids: Arc<AtomicU64>) {
     let mut streams: HashMap<u64, Arc<Sess>> = HashMap::new();
     while let Some(f) = read_frame(&mut s) {
         match answer(&f, &reg, &ids, &mut streams) {
-            Act::Reply(b) => {
-                if s.write_all(&b).is_err() || s.flush().is_err() {
+            Act::Reply(b, st) => {
+                if !write_fragmented(&mut s, &b, st) {
                     return;
                 }
             }
@@ -525,7 +580,7 @@ async fn fake_ws_conn(s: tokio::net::TcpStream, reg: Reg, ids: Arc<AtomicU64>) {
         let Ws::Binary(payload) = m else { continue };
         let Some((f, _)) = RawFrame::parse_prefix(&payload) else { return };
         match answer(&f, &reg, &ids, &mut streams) {
-            Act::Reply(b) => {
+            Act::Reply(b, _) => {
                 if ws.send(Ws::Binary(b.into())).await.is_err() {
                     return;
                 }
@@ -604,6 +659,9 @@ fn rej() -> RepeError {
 struct FaultyDigest {
     buf: Vec<u8>,
     limit: Option<(u64, bool)>,
+    /// 0 plain, 1 short writes (one byte per call), 2 `Interrupted` on every other call, 3 slow
+    mode: u8,
+    calls: u64,
 }
 impl Write for FaultyDigest {
     fn write(&mut self, b: &[u8]) -> std::io::Result<usize> {
@@ -614,6 +672,16 @@ impl Write for FaultyDigest {
                 }
                 return Err(std::io::Error::other("digest sink refused"));
             }
+        }
+        self.calls += 1;
+        match self.mode {
+            1 if !b.is_empty() => {
+                self.buf.push(b[0]);
+                return Ok(1);
+            }
+            2 if self.calls % 2 == 1 => return Err(std::io::Error::new(std::io::ErrorKind::Interrupted, "try again")),
+            3 if self.calls % 16 == 1 => std::thread::sleep(Duration::from_micros(200)),
+            _ => {}
         }
         self.buf.extend_from_slice(b);
         Ok(b.len())
@@ -626,6 +694,11 @@ impl Write for FaultyDigest {
 struct DigestDied;
 struct VerifyDied(#[allow(dead_code)] u64);
 
+/// inbound limit for the next WebSocket clients (0 = the crate's default)
+static WS_LIMIT: std::sync::atomic::AtomicUsize = std::sync::atomic::AtomicUsize::new(0);
+/// thorough tier: 1-byte fragmentation also of larger frames
+static THOROUGH: std::sync::atomic::AtomicBool = std::sync::atomic::AtomicBool::new(false);
+
 /// A live client; sequences of pulls reuse one.
 enum Conn {
     Sync(Client),
@@ -634,7 +707,12 @@ enum Conn {
 }
 impl Conn {
     fn open(rt: &tokio::runtime::Runtime, p: Puller, addr: SocketAddr, ws: Option<SocketAddr>) -> Result<Conn, RepeError> {
+        let wl = WS_LIMIT.load(Ordering::Relaxed);
         Ok(match (p.is_async(), ws) {
+            (true, Some(wsa)) if wl > 0 => {
+                let lim = repe::WebSocketLimits { max_incoming_frame_size: Some(wl), max_incoming_message_size: Some(wl), ..Default::default() };
+                Conn::Ws(rt.block_on(repe::WebSocketClient::connect_with_limits(&format!("ws://{wsa}"), lim)).map_err(RepeError::Io)?)
+            }
             (true, Some(wsa)) => Conn::Ws(rt.block_on(repe::WebSocketClient::connect(&format!("ws://{wsa}"))).map_err(RepeError::Io)?),
             (true, None) => Conn::Async(rt.block_on(AsyncClient::connect(addr)).map_err(RepeError::Io)?),
             (false, _) => Conn::Sync(Client::connect(addr).map_err(RepeError::Io)?),
@@ -648,10 +726,11 @@ struct Knobs {
     verify_kind: u8,
     dfault: Option<(u64, bool)>,
     via_ps: bool,
+    digest_mode: u8,
 }
 impl Knobs {
     fn of(sc: &Script) -> Knobs {
-        Knobs { verify_ok: sc.verify_ok, verify_kind: sc.verify_kind, dfault: sc.dfault, via_ps: sc.via_ps }
+        Knobs { verify_ok: sc.verify_ok, verify_kind: sc.verify_kind, dfault: sc.dfault, via_ps: sc.via_ps, digest_mode: ((sc.style >> 21) & 3) as u8 }
     }
 }
 
@@ -694,7 +773,7 @@ fn call_on(rt: &tokio::runtime::Runtime, conn: &Conn, p: Puller, resource: &str,
             verify_behaviour(k)
         }
     };
-    let dg = FaultyDigest { buf: vec![], limit: k.dfault };
+    let dg = FaultyDigest { buf: vec![], limit: k.dfault, mode: k.digest_mode, calls: 0 };
     match conn {
         Conn::Ws(c) => rt.block_on(async move {
             match p {
@@ -940,6 +1019,9 @@ struct Ctx {
     exe: PathBuf,
     n: u64,
     strace_ok: bool,
+    /// what a concurrent observer of the destination saw that was neither old nor complete (last in-process pull)
+    last_watch: Option<String>,
+    watch_reads: u64,
     /// fsync on /dev/null fails here, so a sync fault can be planted
     syncfault_ok: bool,
     /// also kill on entry to the N-th write(2) of any thread, sockets included (thorough tier)
@@ -957,7 +1039,50 @@ impl Ctx {
         let dest = prepare_sc(&dir, sc);
         let seen = Arc::new(Mutex::new(Seen::default()));
         let ws = if sc.ws { self.fake.ws_addr } else { None };
+        WS_LIMIT.store(sc.wl.unwrap_or(0), Ordering::Relaxed);
+        // observers: 1-2 threads read the destination in a loop while the pull runs; every sight must be
+        // the old state or the complete content
+        self.last_watch = None;
+        let stop = Arc::new(std::sync::atomic::AtomicBool::new(false));
+        let mut watchers = vec![];
+        if (sc.style >> 23) & 1 == 1 && matches!(sc.dest, Dest::Old | Dest::None) {
+            let complete = sc.expected_content();
+            for _ in 0..(1 + (sc.style >> 24) & 1) {
+                let (stop, dest, complete, old) = (stop.clone(), dest.clone(), complete.clone(), sc.dest == Dest::Old);
+                watchers.push(std::thread::spawn(move || -> (u64, Option<String>) {
+                    let mut n = 0u64;
+                    loop {
+                        let done = stop.load(Ordering::Relaxed);
+                        let sight = std::fs::read(&dest).ok();
+                        n += 1;
+                        let fine = match &sight {
+                            None => !old || complete.is_none() && false || !old,
+                            Some(b) => (old && b == OLD) || complete.as_ref().map(|c| c == b).unwrap_or(false),
+                        };
+                        // (a pre-existing destination never becomes absent)
+                        let fine = fine && !(old && sight.is_none());
+                        if !fine {
+                            return (n, Some(sight.map(|b| digest(&b)).unwrap_or("absent".into())));
+                        }
+                        if done {
+                            return (n, None);
+                        }
+                        std::thread::yield_now();
+                    }
+                }));
+            }
+        }
         let r = catch(|| call_puller(&self.rt, sc.puller, addr, resource, &dest, sc.trailer, Knobs::of(sc), seen.clone(), ws));
+        WS_LIMIT.store(0, Ordering::Relaxed);
+        stop.store(true, Ordering::Relaxed);
+        for w in watchers {
+            if let Ok((n, bad)) = w.join() {
+                self.watch_reads += n;
+                if bad.is_some() {
+                    self.last_watch = bad;
+                }
+            }
+        }
         let panicked = r.is_err();
         let r = r.unwrap_or_else(|_| Err(rej()));
         let o = Obs { panicked, ok: r.is_ok(), dest: dest_state(&dest, sc.dest), tmp: tmp_present(&dest), seen: seen.lock().unwrap().clone() };
@@ -988,6 +1113,12 @@ impl Ctx {
         let o = self.run_inproc(sc, self.fake.addr, &name);
         self.fake.unregister(&name);
         oracles(out, sc, &o, &op);
+        if let Some(bad) = self.last_watch.take() {
+            out.oracle_fail(&format!("commit.observer.{}.saw-neither-old-nor-complete", sc.puller.name()), &format!("a thread reading the destination while the pull ran saw {bad}"), &[op.clone()]);
+        }
+        if (sc.style >> 23) & 1 == 1 {
+            out.count("script.with-observers");
+        }
         count_case(out, sc, "script");
         if sc.style != 0 {
             out.count("script.style.nonzero");
@@ -1123,7 +1254,7 @@ fn hits_cut(sc: &Script) -> bool {
         match r {
             Resp::Chunk(_, false) => continue,
             Resp::Chunk(_, true) | Resp::Error => return false,
-            Resp::Cut => return true,
+            Resp::Cut | Resp::Hang => return true,
         }
     }
     true // the answers run out: the peer closes
@@ -1210,6 +1341,126 @@ fn ob_clone(o: &Obs) -> Obs {
     Obs { panicked: false, ok: o.ok, dest: o.dest.clone(), tmp: o.tmp, seen: o.seen.clone() }
 }
 
+/// A random presentation style; one in four also puts observer threads on the destination.
+fn rand_style(rng: &mut Rng) -> u64 {
+    let mut st = rng.next() & 0x7fffff;
+    if rng.chance(1, 4) {
+        st |= 1 << 23;
+        st |= (rng.next() & 1) << 24;
+    }
+    st
+}
+
+async fn pull_async_on(c: &AsyncClient, sc: &Script, resource: &str, dest: &Path) -> Result<(), RepeError> {
+    let k = Knobs::of(sc);
+    let dg = FaultyDigest { buf: vec![], limit: k.dfault, mode: k.digest_mode, calls: 0 };
+    match sc.puller {
+        Puller::FileAsync => repe::pull_to_file_async(c, resource, dest).await.map(|_| ()),
+        Puller::VerifiedAsync => repe::pull_to_file_verified_async(c, resource, dest, dg, move |_d: FaultyDigest| verify_behaviour(k)).await,
+        _ => repe::pull_to_file_trailer_verified_async(c, resource, dest, sc.trailer, dg, move |_d: FaultyDigest, _t: &[u8]| verify_behaviour(k)).await,
+    }
+}
+
+impl Ctx {
+    /// `par <i> <blocking threads N> <shared 0|1> SCRIPT :: SCRIPT :: …`: async pulls running concurrently on a
+    /// runtime whose blocking pool has N threads, one of them occupied when the pulls start; through one
+    /// shared AsyncClient or one each; each into its own destination. Each must behave as if alone.
+    fn exec_par(&mut self, out: &mut Out, idx: &str, bp: usize, shared: bool, scripts: &[Script]) {
+        let op = format!("par {} {} {} {}", idx, bp, shared as u8, scripts.iter().map(|s| s.words()).collect::<Vec<_>>().join(" :: "));
+        out.begin(&op);
+        let (base, dir) = self.fresh();
+        let _ = std::fs::remove_dir_all(&dir);
+        std::fs::create_dir_all(&dir).unwrap();
+        let dests: Vec<PathBuf> = scripts.iter().enumerate().map(|(i, sc)| prepare_named(&dir, &format!("out{i}.bin"), sc.dest)).collect();
+        let names: Vec<String> = (0..scripts.len()).map(|i| format!("{base}-{i}")).collect();
+        for (n, sc) in names.iter().zip(scripts) {
+            self.fake.register(n, sc, 0);
+        }
+        let addr = self.fake.addr;
+        let (sc2, d2, n2) = (scripts.to_vec(), dests.clone(), names.clone());
+        let (tx, rx) = std::sync::mpsc::channel();
+        std::thread::spawn(move || {
+            let rt = tokio::runtime::Builder::new_multi_thread().worker_threads(1).max_blocking_threads(bp).enable_all().build().unwrap();
+            let res: Vec<bool> = rt.block_on(async move {
+                // the blocking pool is busy when the pulls need it
+                let blocker = tokio::task::spawn_blocking(|| std::thread::sleep(Duration::from_millis(60)));
+                let shared_c = if shared { AsyncClient::connect(addr).await.ok() } else { None };
+                let futs = sc2.iter().enumerate().map(|(i, sc)| {
+                    let (shared_c, dest, name) = (shared_c.clone(), d2[i].clone(), n2[i].clone());
+                    async move {
+                        let c = match shared_c {
+                            Some(c) => c,
+                            None => match AsyncClient::connect(addr).await {
+                                Ok(c) => c,
+                                Err(_) => return false,
+                            },
+                        };
+                        pull_async_on(&c, sc, &name, &dest).await.is_ok()
+                    }
+                });
+                let r = futures_util::future::join_all(futs).await;
+                let _ = blocker.await;
+                r
+            });
+            let _ = tx.send(res);
+        });
+        let res = rx.recv_timeout(Duration::from_secs(60)).ok();
+        for n in &names {
+            self.fake.unregister(n);
+        }
+        let Some(res) = res else {
+            out.count("par.did-not-finish");
+            return;
+        };
+        let mut line = idx.to_string();
+        for (i, sc) in scripts.iter().enumerate() {
+            let o = Obs { panicked: false, ok: res[i], dest: dest_state(&dests[i], sc.dest), tmp: tmp_present(&dests[i]), seen: Seen::default() };
+            oracles(out, sc, &o, &op);
+            line.push_str(&format!(" | ret {} dest {} tmp {}", if o.ok { "ok" } else { "err" }, show_dest(&o.dest), o.tmp as u8));
+        }
+        let _ = std::fs::remove_dir_all(&dir);
+        out.count(&format!("par.blocking-threads.{bp}"));
+        out.case(&op, &line, true);
+    }
+
+    /// `cancel <i> <ms> SCRIPT :: saw`: an async pull whose peer stops answering (`h`) is dropped by its caller
+    /// after <ms>; afterwards the destination must be one of the states a kill could leave.
+    fn exec_cancel(&mut self, out: &mut Out, idx: &str, ms: u64, sc: &Script) {
+        let (name, dir) = self.fresh();
+        let dest = prepare(&dir, sc.dest);
+        self.fake.register(&name, sc, 0);
+        let addr = self.fake.addr;
+        let (sc2, d2, n2) = (sc.clone(), dest.clone(), name.clone());
+        let r = self.rt.block_on(async move {
+            let Ok(c) = AsyncClient::connect(addr).await else { return None };
+            tokio::time::timeout(Duration::from_millis(ms), pull_async_on(&c, &sc2, &n2, &d2)).await.ok().map(|r| r.is_ok())
+        });
+        // the abandoned blocking half winds down on its own: give it a moment, then look
+        let t0 = Instant::now();
+        while tmp_present(&dest) && t0.elapsed() < Duration::from_secs(3) {
+            std::thread::sleep(Duration::from_millis(5));
+        }
+        self.fake.unregister(&name);
+        let st = dest_state(&dest, sc.dest);
+        let op = format!("cancel {} {} {} :: {}", idx, ms, sc.words(), show_dest(&st));
+        let complete = sc.expected_content();
+        let good = match (&st, &complete) {
+            (DestState::Same, _) => true,
+            (DestState::New(b), Some(c)) => b == c,
+            _ => false,
+        };
+        if !good {
+            out.oracle_fail(&format!("commit.cancel.{}.dest-neither-old-nor-complete", sc.puller.name()), &format!("pull dropped by its caller after {ms} ms: destination is {}", show_dest(&st)), &[op.clone()]);
+        }
+        out.count(&format!("cancel.{}", match r { None => "dropped-mid-pull", Some(true) => "finished-ok-first", Some(false) => "finished-err-first" }));
+        if tmp_present(&dest) {
+            out.count("cancel.temp-still-there-after-3s(not asserted)");
+        }
+        let _ = std::fs::remove_dir_all(&dir);
+        out.case(&op, &format!("{idx} kill ok"), true);
+    }
+}
+
 fn nontrivial(sc: &Script) -> bool {
     // at least one chunk was delivered, or the script fails for a reason other than a dead open
     sc.open == Open::Ok && sc.wire.iter().any(|r| matches!(r, Resp::Chunk(b, _) if !b.is_empty()))
@@ -1261,6 +1512,7 @@ struct FailingReader {
     /// die with a panic instead of returning an error
     panics: bool,
     slow: bool,
+    calls: u64,
 }
 
 /// A value whose `Serialize` impl panics when it reaches element `at` (a dying producer body).
@@ -1301,6 +1553,10 @@ impl Read for FailingReader {
         }
         if self.slow {
             std::thread::sleep(Duration::from_millis(2));
+        }
+        self.calls += 1;
+        if self.calls % 3 == 0 {
+            return Err(std::io::Error::new(std::io::ErrorKind::Interrupted, "try again"));
         }
         // small reads so that the sink sees many write sizes
         let n = out.len().min(limit - self.pos).min(7);
@@ -1357,7 +1613,7 @@ fn start_real(r: &Real, zstd: bool) -> SocketAddr {
             opts,
         )
     } else {
-        Router::new().with_reader_stream(move |res: &str| (res == "blob").then(|| FailingReader { data: payload.clone(), pos: 0, fail_at: fail, panics, slow }), opts)
+        Router::new().with_reader_stream(move |res: &str| (res == "blob").then(|| FailingReader { data: payload.clone(), pos: 0, fail_at: fail, panics, slow, calls: 0 }), opts)
     };
     let server = Server::new(router);
     let l = server.listen("127.0.0.1:0").expect("bind");
@@ -1877,7 +2133,7 @@ fn make_script(p: Puller, zstd: bool, logical: &[u8], sizes: &[usize], fault: Op
     let wire_bytes = if zstd { zstd_of(logical) } else { logical.to_vec() };
     let cs = split_at_sizes(&wire_bytes, sizes);
     let wire = wire_of(&cs, fault, last_on_empty);
-    let mut sc = Script { puller: p, zstd, beve: true, open: Open::Ok, verify_ok: true, trailer: 0, dest: Dest::None, dec: Dec::Na, wire, wfault: None, sync_fault: false, ws: false, verify_panics: false, verify_kind: 0, dfault: None, via_ps: false, style: 0 };
+    let mut sc = Script { puller: p, zstd, beve: true, open: Open::Ok, verify_ok: true, trailer: 0, dest: Dest::None, dec: Dec::Na, wire, wfault: None, sync_fault: false, ws: false, verify_panics: false, verify_kind: 0, dfault: None, via_ps: false, style: 0, wl: None };
     sc.dec = dec_for(&sc);
     sc
 }
@@ -1907,6 +2163,8 @@ fn dec_for(sc: &Script) -> Dec {
     }
 }
 
+static T0: std::sync::OnceLock<Instant> = std::sync::OnceLock::new();
+
 fn gen_and_run(args: &Args, out: &mut Out, ctx: &mut Ctx) {
     let mut rng = Rng::new(args.seed);
     let thorough = args.thorough();
@@ -1916,6 +2174,7 @@ fn gen_and_run(args: &Args, out: &mut Out, ctx: &mut Ctx) {
         format!("{pfx}{i}")
     };
 
+    if std::env::var("FAM_COMMIT_TIMING").is_ok() { eprintln!("[t] {:>6} ms  before A", T0.get_or_init(Instant::now).elapsed().as_millis()); }
     // (A) systematic: every puller x compression x destination x every fault position
     for &p in &PULLERS {
         for zstd in [false, true] {
@@ -1999,6 +2258,7 @@ fn gen_and_run(args: &Args, out: &mut Out, ctx: &mut Ctx) {
         }
     }
 
+    if std::env::var("FAM_COMMIT_TIMING").is_ok() { eprintln!("[t] {:>6} ms  before A'", T0.get_or_init(Instant::now).elapsed().as_millis()); }
     // (A') the three async pullers over a WebSocketClient (same generic pull code, other transport)
     for &p in &[Puller::FileAsync, Puller::VerifiedAsync, Puller::TrailerAsync] {
         for zstd in [false, true] {
@@ -2043,6 +2303,7 @@ fn gen_and_run(args: &Args, out: &mut Out, ctx: &mut Ctx) {
         }
     }
 
+    if std::env::var("FAM_COMMIT_TIMING").is_ok() { eprintln!("[t] {:>6} ms  before A''", T0.get_or_init(Instant::now).elapsed().as_millis()); }
     // (A'') where the temp file lives: names, parents, and two pulls side by side in one directory
     for name in ["out", "out.bin", "out.tar.gz", ".hidden", "a b.dat", "x.svspart", "caf\u{e9}.bin", "out.bin.svspart.bak"] {
         ctx.exec_sibling(out, &next("n"), name);
@@ -2076,6 +2337,7 @@ fn gen_and_run(args: &Args, out: &mut Out, ctx: &mut Ctx) {
         }
     }
 
+    if std::env::var("FAM_COMMIT_TIMING").is_ok() { eprintln!("[t] {:>6} ms  before S", T0.get_or_init(Instant::now).elapsed().as_millis()); }
     // (S) sequences: 3-5 pulls through one client into one destination, mixing pullers of the same
     //     transport, complete and failing streams, rejected verification, a cut in the middle (dead client)
     let nseq = if thorough { 120 } else { 36 };
@@ -2120,6 +2382,7 @@ fn gen_and_run(args: &Args, out: &mut Out, ctx: &mut Ctx) {
         ctx.exec_seq(out, &next("q"), old, &steps, same);
     }
 
+    if std::env::var("FAM_COMMIT_TIMING").is_ok() { eprintln!("[t] {:>6} ms  before B", T0.get_or_init(Instant::now).elapsed().as_millis()); }
     // (B) random scripts: sizes around io::copy's 8 KiB buffer, empty chunks, mixed write sizes for TrailerHold
     let nrand = if thorough { 1500 } else { 260 };
     for _ in 0..nrand {
@@ -2136,6 +2399,8 @@ fn gen_and_run(args: &Args, out: &mut Out, ctx: &mut Ctx) {
         };
         let logical: Vec<u8> = if zstd && rng.chance(1, 2) { (0..n).map(|j| (j % 7) as u8 + 1).collect() } else { rng.bytes(n).iter().map(|b| b | 1).collect() };
         let sizes: Vec<usize> = (0..1 + rng.below(4)).map(|_| match rng.below(6) { 0 => 1, 1 => 2, 2 => 8192, 3 => 8193, 4 => 3000, _ => 1 + rng.below(40) as usize }).collect();
+        // (one round trip per chunk: keep long streams to a few hundred chunks in the quick tier)
+        let sizes: Vec<usize> = if n > 600 && !thorough { sizes.iter().map(|x| (*x).max(40)).collect() } else { sizes };
         let wb_len = if zstd { zstd_of(&logical).len() } else { n };
         let nch = split_at_sizes(&vec![0u8; wb_len], &sizes).len();
         let fault = match rng.below(5) {
@@ -2164,7 +2429,7 @@ fn gen_and_run(args: &Args, out: &mut Out, ctx: &mut Ctx) {
             sc.open = *rng.pick(&[Open::Err, Open::Cut]);
         }
         if rng.chance(2, 3) {
-            sc.style = rng.next() & 0x3ffff;
+            sc.style = rand_style(&mut rng);
         }
         sc.via_ps = !p.is_async() && !p.has_trailer() && rng.chance(1, 2);
         if p.verifies() && rng.chance(1, 6) {
@@ -2175,6 +2440,7 @@ fn gen_and_run(args: &Args, out: &mut Out, ctx: &mut Ctx) {
     }
     ZSTD_LEVEL.store(3, Ordering::Relaxed);
 
+    if std::env::var("FAM_COMMIT_TIMING").is_ok() { eprintln!("[t] {:>6} ms  before B'", T0.get_or_init(Instant::now).elapsed().as_millis()); }
     // (B') boundary values of the caller's parameters and of the stream: empty streams, zero bytes in the
     //      content, trailer_len 0 / huge / usize::MAX, every verify flavour, a digest sink that refuses or dies
     for &p in &PULLERS {
@@ -2188,7 +2454,7 @@ fn gen_and_run(args: &Args, out: &mut Out, ctx: &mut Ctx) {
                 for (fault, dest) in [(None, Dest::None), (None, Dest::Old), (Some((0usize, Resp::Error)), Dest::Old), (Some((0usize, Resp::Cut)), Dest::None)] {
                     let mut sc = make_script(p, false, &[], &[4], fault, true);
                     sc.dest = dest;
-                    sc.style = rng.next() & 0x3ffff;
+                    sc.style = rand_style(&mut rng);
                     ctx.exec_script(out, &next("b"), &sc, 0);
                 }
             }
@@ -2204,7 +2470,7 @@ fn gen_and_run(args: &Args, out: &mut Out, ctx: &mut Ctx) {
             let mk = |rng: &mut Rng, fault: Option<(usize, Resp)>| {
                 let mut sc = make_script(p, zstd, &logical, &[17, 5, 23], fault, rng.chance(1, 2));
                 sc.dest = *rng.pick(&[Dest::None, Dest::Old]);
-                sc.style = rng.next() & 0x3ffff;
+                sc.style = rand_style(rng);
                 sc.via_ps = !p.is_async() && !p.has_trailer() && rng.chance(1, 2);
                 sc
             };
@@ -2278,6 +2544,179 @@ fn gen_and_run(args: &Args, out: &mut Out, ctx: &mut Ctx) {
     }
     ZSTD_LEVEL.store(3, Ordering::Relaxed);
 
+    if std::env::var("FAM_COMMIT_TIMING").is_ok() { eprintln!("[t] {:>6} ms  before G2", T0.get_or_init(Instant::now).elapsed().as_millis()); }
+    // (G2) counts in a row and internal sizes
+    {
+        let counts: &[usize] = if thorough { &[1, 2, 7, 8, 9, 16, 17, 64, 65, 256, 1000] } else { &[1, 2, 7, 8, 9, 16, 17, 64, 65, 256] };
+        let gp = [Puller::File, Puller::Trailer, Puller::FileAsync, Puller::TrailerAsync, Puller::VerifiedAsync];
+        for (ci, &cnt) in counts.iter().enumerate() {
+            // N empty chunks in a row inside a stream (the blocking reader fetches again N times, the async loop
+            // skips N times), then data + last / an error / a cut
+            for (j, fault) in [None, Some(Resp::Error), Some(Resp::Cut)].into_iter().enumerate() {
+                let p = gp[(ci + j) % gp.len()];
+                let mut wire = vec![Resp::Chunk(vec![1, 2, 3], false)];
+                wire.extend((0..cnt).map(|_| Resp::Chunk(vec![], false)));
+                match fault {
+                    None => wire.push(Resp::Chunk(vec![4, 5, 6, 7, 8, 9], true)),
+                    Some(f) => wire.push(f),
+                }
+                let mut sc = make_script(p, false, &[0], &[1], None, false);
+                sc.wire = wire;
+                sc.trailer = if p.has_trailer() { 2 } else { 0 };
+                sc.dest = if cnt % 2 == 0 { Dest::Old } else { Dest::None };
+                sc.ws = p.is_async() && cnt % 3 == 0;
+                ctx.exec_script(out, &next("g"), &sc, 0);
+            }
+            // N one-byte chunks (the async channel holds ASYNC_PULL_DEPTH = 4): slow digest so that it fills
+            let p = [Puller::TrailerAsync, Puller::VerifiedAsync, Puller::FileAsync, Puller::Trailer][ci % 4];
+            let logical: Vec<u8> = (0..cnt + 2).map(|j| j as u8).collect();
+            let mut sc = make_script(p, false, &logical, &[1], if ci % 3 == 2 { Some((cnt, Resp::Error)) } else { None }, ci % 2 == 0);
+            sc.trailer = if p.has_trailer() { 1 } else { 0 };
+            sc.style = 3 << 21; // slow digest sink
+            ctx.exec_script(out, &next("g"), &sc, 0);
+        }
+        // 3, 4, 5, 6 chunks around the async channel depth, stalled peer, slow and fast consumer
+        for nch in [3usize, 4, 5, 6] {
+            for slow in [0u64, 3] {
+                let p = if nch % 2 == 0 { Puller::VerifiedAsync } else { Puller::TrailerAsync };
+                let logical: Vec<u8> = rng.bytes(nch * 10);
+                let mut sc = make_script(p, false, &logical, &[10], if slow == 3 { Some((nch, Resp::Cut)) } else { None }, false);
+                sc.trailer = if p.has_trailer() { 4 } else { 0 };
+                sc.style = (slow << 21) | (3 << 18);
+                ctx.exec_script(out, &next("g"), &sc, 0);
+            }
+        }
+        // N pulls in a row through one client into one destination: the N-th like the first
+        for (class, len) in [(0usize, 9usize), (1, 17)].into_iter().chain(if thorough { vec![(0, 65), (2, 65)] } else { vec![] }) {
+            let ps: &[Puller] = if class == 0 { &[Puller::File, Puller::Trailer] } else { &[Puller::FileAsync, Puller::TrailerAsync] };
+            let mut steps = vec![];
+            for i in 0..len {
+                let p = ps[i % 2];
+                let logical: Vec<u8> = rng.bytes(5 + i % 7);
+                // runs of identical failures, then a success
+                let fault = if i % 9 < 7 { Some((1usize, if i % 2 == 0 { Resp::Error } else { Resp::Error })) } else { None };
+                let mut sc = make_script(p, false, &logical, &[3], fault, false);
+                sc.ws = class == 2;
+                sc.trailer = if p.has_trailer() { 1 } else { 0 };
+                sc.dest = Dest::Old;
+                steps.push(sc);
+            }
+            ctx.exec_seq(out, &next("q"), true, &steps, len % 2 == 1);
+        }
+        // frames around the clients' 8 KiB read buffers: header 48 + query 1 + body
+        for body in [8142usize, 8143, 8144, 8191, 8192, 8193] {
+            let p = *rng.pick(&[Puller::File, Puller::FileAsync, Puller::Trailer]);
+            let logical = gen_bytes(7, body + 10);
+            let mut sc = make_script(p, false, &logical, &[body, 10], None, false);
+            sc.trailer = if p.has_trailer() { 5 } else { 0 };
+            sc.style = ((1 + rng.below(4)) << 18) as u64;
+            sc.dest = Dest::Old;
+            ctx.exec_script(out, &next("g"), &sc, 0);
+        }
+        // compressed chunks around zstd's stream buffers (input 128 KiB + 3, output 128 KiB)
+        if thorough || true {
+            let big: Vec<u8> = { let mut r2 = Rng::new(args.seed ^ 77); r2.bytes(140_000) }; // incompressible: wire ≈ logical
+            for (p, sz) in [(Puller::Beve, 131_075usize), (Puller::File, 131_072), (Puller::FileAsync, 131_076)] {
+                let mut sc = make_script(p, true, &big, &[sz, 5000], None, false);
+                sc.dest = Dest::Old;
+                if thorough || p == Puller::Beve {
+                    ctx.exec_script(out, &next("g"), &sc, 0);
+                }
+            }
+        }
+        // a WebSocket client with a small inbound limit: chunk responses just under / at / over it
+        for lim in [512usize, 4096] {
+            for (j, body) in [lim - 50, lim - 49, lim - 48, lim].into_iter().enumerate() {
+                let p = [Puller::FileAsync, Puller::TrailerAsync, Puller::VerifiedAsync][j % 3];
+                let logical = gen_bytes(9, body + 20).iter().map(|b| b ^ 0x55).collect::<Vec<u8>>();
+                let mut sc = make_script(p, false, &logical, &[20, body], None, false);
+                sc.ws = true;
+                sc.wl = Some(lim);
+                sc.trailer = if p.has_trailer() { 3 } else { 0 };
+                sc.dest = if j % 2 == 0 { Dest::Old } else { Dest::None };
+                ctx.exec_script(out, &next("g"), &sc, 0);
+            }
+        }
+    }
+
+    if std::env::var("FAM_COMMIT_TIMING").is_ok() { eprintln!("[t] {:>6} ms  before L", T0.get_or_init(Instant::now).elapsed().as_millis()); }
+    // (L) a starved blocking pool: concurrent async pulls on a runtime with 1-2 blocking threads, one busy
+    for (j, bp) in [1usize, 1, 2, 1, 2, 1].into_iter().enumerate() {
+        if !thorough && j >= 4 {
+            break;
+        }
+        let mut scripts = vec![];
+        for i in 0..(2 + j % 3) {
+            let p = [Puller::FileAsync, Puller::TrailerAsync, Puller::VerifiedAsync][(i + j) % 3];
+            let zstd = (i + j) % 4 == 0;
+            let logical: Vec<u8> = rng.bytes(30 + 20 * i);
+            let sizes = [7usize];
+            let nch = split_at_sizes(&if zstd { zstd_of(&logical) } else { logical.clone() }, &sizes).len();
+            let fault = match (i + j) % 4 { 1 => Some((nch / 2, Resp::Error)), 2 => Some((nch, Resp::Cut)), _ => None };
+            let mut sc = make_script(p, zstd, &logical, &sizes, fault, false);
+            sc.trailer = if p.has_trailer() { 3 } else { 0 };
+            sc.verify_ok = (i + j) % 5 != 0;
+            sc.dest = if i % 2 == 0 { Dest::Old } else { Dest::None };
+            sc.style = ((j as u64 % 4) << 21) | (((i + j) as u64 % 5) << 18);
+            scripts.push(sc);
+        }
+        // with one client each a cut kills only its own pull; with a shared client use error responses only
+        let shared = j % 2 == 1;
+        if shared {
+            for sc in scripts.iter_mut() {
+                for r in sc.wire.iter_mut() {
+                    if *r == Resp::Cut {
+                        *r = Resp::Error;
+                    }
+                }
+                sc.dec = dec_for(sc);
+            }
+        }
+        ctx.exec_par(out, &next("l"), bp, shared, &scripts);
+    }
+
+    if std::env::var("FAM_COMMIT_TIMING").is_ok() { eprintln!("[t] {:>6} ms  before M", T0.get_or_init(Instant::now).elapsed().as_millis()); }
+    // (M) a pull dropped by its caller while the peer hangs, at every phase: before open is answered is not
+    //     scriptable (open has no hang), so: after 0, 1, … chunks
+    for &p in &[Puller::FileAsync, Puller::VerifiedAsync, Puller::TrailerAsync] {
+        let logical: Vec<u8> = rng.bytes(40);
+        let nch = 4usize;
+        for k in 0..=nch {
+            if !thorough && k > 0 && k < nch && (k + p as usize) % 2 == 0 {
+                continue;
+            }
+            let mut sc = make_script(p, false, &logical, &[10], Some((k, Resp::Hang)), false);
+            sc.trailer = if p.has_trailer() { 3 } else { 0 };
+            sc.dest = if k % 2 == 0 { Dest::Old } else { Dest::None };
+            sc.style = ((k as u64 % 4) << 21) | ((k as u64 % 5) << 18);
+            ctx.exec_cancel(out, &next("m"), 60 + 30 * (k as u64 % 2), &sc);
+        }
+        // … and one whose stream completes before the caller's patience ends (commit may win the race)
+        let mut sc = make_script(p, false, &logical, &[10], None, false);
+        sc.trailer = if p.has_trailer() { 3 } else { 0 };
+        sc.dest = Dest::Old;
+        ctx.exec_cancel(out, &next("m"), 2000, &sc);
+    }
+
+    if std::env::var("FAM_COMMIT_TIMING").is_ok() { eprintln!("[t] {:>6} ms  before K", T0.get_or_init(Instant::now).elapsed().as_millis()); }
+    // (K) pairs of producer-side knobs at their extremes (orthogonal array L8 over 7 two-level factors)
+    for &p in &[Puller::File, Puller::TrailerAsync, Puller::FileAsync] {
+        for row in [0b0000000u8, 0b0001111, 0b0110011, 0b0111100, 0b1010101, 0b1011010, 0b1100110, 0b1101001] {
+            let bit = |k: u8| (row >> k) & 1 == 1;
+            let len = 40usize;
+            let zstd = bit(3);
+            let kind: u8 = if bit(6) { 1 } else { 0 };
+            let fail = if bit(5) { Some(17usize) } else { None };
+            let r = Real { kind, panics: fail.is_some() && bit(4), chunk: if bit(0) { 1 << 20 } else { 1 }, fail, depth: if bit(1) { 64 } else { 0 }, payload: rng.bytes(len), level: if bit(2) { 19 } else { -7 }, slow: bit(4) };
+            let (wire, dec) = real_wire(&r, zstd);
+            let mut sc = Script { puller: p, zstd, beve: false, open: Open::Ok, verify_ok: true, trailer: if p.has_trailer() { if bit(5) { len } else { 0 } } else { 0 }, dest: if bit(1) { Dest::Old } else { Dest::None }, dec, wire, wfault: None, sync_fault: false, ws: false, verify_panics: false, verify_kind: 0, dfault: None, via_ps: false, style: 0, wl: None };
+            sc.via_ps = p == Puller::File && bit(2);
+            out.count("real.pairwise");
+            ctx.exec_real(out, &next("r"), &r, &sc);
+        }
+    }
+
+    if std::env::var("FAM_COMMIT_TIMING").is_ok() { eprintln!("[t] {:>6} ms  before C", T0.get_or_init(Instant::now).elapsed().as_millis()); }
     // (C) the crate's own Server with failing reader / writer producers: failure after every chunk
     //     boundary +-1 byte
     let chunk = 16usize;
@@ -2318,7 +2757,7 @@ fn gen_and_run(args: &Args, out: &mut Out, ctx: &mut Ctx) {
                 let fk = if kind == 2 { f.map(|n| n / 2) } else { f };
                 let r = Real { kind, panics, chunk, fail: fk, depth: rng.below(5) as usize, payload: if kind == 2 { payload[..payload.len() / 2].to_vec() } else { payload.clone() }, level: 3, slow: false };
                 let (wire, dec) = real_wire(&r, zstd);
-                let mut sc = Script { puller: p, zstd, beve: kind == 2, open: Open::Ok, verify_ok: true, trailer: if p.has_trailer() { 8 } else { 0 }, dest: *rng.pick(&[Dest::None, Dest::Old]), dec, wire, wfault: None, sync_fault: false, ws: false, verify_panics: false, verify_kind: 0, dfault: None, via_ps: false, style: 0 };
+                let mut sc = Script { puller: p, zstd, beve: kind == 2, open: Open::Ok, verify_ok: true, trailer: if p.has_trailer() { 8 } else { 0 }, dest: *rng.pick(&[Dest::None, Dest::Old]), dec, wire, wfault: None, sync_fault: false, ws: false, verify_panics: false, verify_kind: 0, dfault: None, via_ps: false, style: 0, wl: None };
                 if p.verifies() && f.is_none() && rng.chance(1, 3) {
                     sc.verify_ok = false;
                 }
@@ -2329,6 +2768,7 @@ fn gen_and_run(args: &Args, out: &mut Out, ctx: &mut Ctx) {
         }
     }
 
+    if std::env::var("FAM_COMMIT_TIMING").is_ok() { eprintln!("[t] {:>6} ms  before C'", T0.get_or_init(Instant::now).elapsed().as_millis()); }
     // (C') the producer-side knobs (`StreamOpts`): chunk sizes 1 … 1 MiB, zstd levels, channel depths 0 … 64,
     //      payload lengths 0, 1 and around a chunk, slow producers; also the `.beve` puller on a compressed
     //      value stream
@@ -2347,13 +2787,14 @@ fn gen_and_run(args: &Args, out: &mut Out, ctx: &mut Ctx) {
             let r = Real { kind, panics: fail.is_some() && rng.chance(1, 2), chunk, fail, depth: *rng.pick(&[0usize, 1, 2, 64]), payload: data, level: *rng.pick(&[1, 3, 19, -7]), slow: len <= 30 && rng.chance(1, 3) };
             let (wire, dec) = real_wire(&r, zstd);
             let stream_len = if kind == 2 { panic_seq_bytes(&r.payload).len() } else { r.payload.len() };
-            let mut sc = Script { puller: p, zstd, beve: kind == 2, open: Open::Ok, verify_ok: !rng.chance(1, 5), trailer: if p.has_trailer() { *rng.pick(&[0usize, 1, stream_len, stream_len + 1]) } else { 0 }, dest: *rng.pick(&[Dest::None, Dest::Old]), dec, wire, wfault: None, sync_fault: false, ws: false, verify_panics: false, verify_kind: 0, dfault: None, via_ps: false, style: 0 };
+            let mut sc = Script { puller: p, zstd, beve: kind == 2, open: Open::Ok, verify_ok: !rng.chance(1, 5), trailer: if p.has_trailer() { *rng.pick(&[0usize, 1, stream_len, stream_len + 1]) } else { 0 }, dest: *rng.pick(&[Dest::None, Dest::Old]), dec, wire, wfault: None, sync_fault: false, ws: false, verify_panics: false, verify_kind: 0, dfault: None, via_ps: false, style: 0, wl: None };
             sc.via_ps = !p.is_async() && !p.has_trailer() && rng.chance(1, 2);
             out.count(&format!("real.chunk.{chunk}"));
             ctx.exec_real(out, &next("r"), &r, &sc);
         }
     }
 
+    if std::env::var("FAM_COMMIT_TIMING").is_ok() { eprintln!("[t] {:>6} ms  before D", T0.get_or_init(Instant::now).elapsed().as_millis()); }
     // (D) value-returning pulls (every public entry point): the value spans the whole stream, truncated at every k
     for mode in ["sync", "async", "stream", "vec", "vecasync", "typed", "typedasync", "complex", "complexasync", "consume", "consumeasync", "consumeerr", "consumeerrasync", "consumepanic", "consumepanicasync"] {
         let base = mode.trim_end_matches("async");
@@ -2396,6 +2837,7 @@ fn gen_and_run(args: &Args, out: &mut Out, ctx: &mut Ctx) {
     }
     ZSTD_LEVEL.store(3, Ordering::Relaxed);
 
+    if std::env::var("FAM_COMMIT_TIMING").is_ok() { eprintln!("[t] {:>6} ms  before G", T0.get_or_init(Instant::now).elapsed().as_millis()); }
     // (G) write-side faults: the file system refuses a write (EFBIG under RLIMIT_FSIZE in the pulling child;
     //     stands for ENOSPC / EDQUOT / EIO too). The limit sweeps the first byte, every chunk boundary +-1,
     //     the end of the content +-1 and the buffer sizes 8 KiB / 64 KiB / 1 MiB +-1.
@@ -2503,6 +2945,7 @@ fn gen_and_run(args: &Args, out: &mut Out, ctx: &mut Ctx) {
         }
     }
 
+    if std::env::var("FAM_COMMIT_TIMING").is_ok() { eprintln!("[t] {:>6} ms  before E", T0.get_or_init(Instant::now).elapsed().as_millis()); }
     // (E) syscall traces and (F) kill points, on the scripted peer
     let mut kidx = 0u64;
     for &p in &PULLERS {
@@ -2563,6 +3006,28 @@ fn replay(ops: Vec<String>, out: &mut Out, ctx: &mut Ctx) {
                             break;
                         }
                     }
+                }
+            }
+            "par" => {
+                let mut steps = vec![];
+                let mut rest: Vec<String> = w[4..].iter().map(|x| x.to_string()).collect();
+                while !rest.is_empty() {
+                    let rw: Vec<&str> = rest.iter().map(|x| x.as_str()).collect();
+                    match Script::parse(&rw) {
+                        Some((sc, after)) => {
+                            steps.push(sc);
+                            rest = after;
+                        }
+                        None => break,
+                    }
+                }
+                if !steps.is_empty() {
+                    ctx.exec_par(out, &idx, w[2].parse().unwrap_or(1), w[3] == "1", &steps);
+                }
+            }
+            "cancel" => {
+                if let Some((sc, _)) = Script::parse(&w[3..]) {
+                    ctx.exec_cancel(out, &idx, w[2].parse().unwrap_or(100), &sc);
                 }
             }
             "seq" => {
@@ -2638,6 +3103,7 @@ fn replay(ops: Vec<String>, out: &mut Out, ctx: &mut Ctx) {
                         dfault: None,
                         via_ps: false,
                         style: 0,
+                        wl: None,
                     };
                     ctx.exec_value(out, &idx, w[2], &sc, w[7].parse().unwrap_or(0));
                 }
@@ -2654,6 +3120,7 @@ fn main() {
     }
     let args = Args::parse();
     quiet_panics();
+    THOROUGH.store(args.thorough(), Ordering::Relaxed);
     let mut out = Out::new(&args.out);
     out.rule = "fault scripts (chunks then last | error response at k | connection cut at k, failing open, incompatible tags, rejecting verifier, trailer longer than the stream, rename refused) for the 7 file pullers and pull_value(_async) against a scripted SVS peer and the crate's Server with failing reader/writer producers, destination pre-existing or absent, both compression settings: systematic over every k plus random sizes around io::copy's 8 KiB buffer; each traced pull runs in a child under strace (-P dest -P temp), each kill point is strace's SIGKILL injection on entry to the N-th open/write/fsync/close/rename/unlink of the two paths. Non-trivial = at least one non-empty chunk was delivered before the end of the script (every trace / kill case is)".into();
     let work = std::fs::canonicalize(&args.out).expect("out dir").join("work");
@@ -2666,6 +3133,8 @@ fn main() {
         exe: std::env::current_exe().expect("current exe"),
         n: 0,
         strace_ok: strace_available(),
+        last_watch: None,
+        watch_reads: 0,
         syncfault_ok: fsync_on_devnull_fails(),
         anywrite: args.thorough(),
     };
